@@ -520,9 +520,20 @@ def encode(case, obs):
         raise ValueError('the implementation rejected the generated configuration: ' + obs['build_error'])
     cfg = '[' + ';\n   '.join(g_mcfg(m, rt) for m, rt in zip(case['mods'], obs['mods'])) + ']'
     ops = '[' + '; '.join(g_op(o) for o in case['ops']) + ']'
-    steps = '[' + ';\n   '.join('{| o_reply := %s; o_upds := %s |}' % (g_reply(s['reply']), gal.lst(s['upds'], g_upd))
-                                for s in obs['steps']) + ']'
-    return '{| c_env := %s; c_cfg := %s; c_ops := %s; c_obs := %s |}' % (G.gal_pyenv(obs['env']), cfg, ops, steps)
+    # identical structure reports are written once (let-bound), which keeps the shards small
+    shared = {}
+    replies = []
+    for s in obs['steps']:
+        if s['reply'][0] == 'desc':
+            term = g_desc(s['reply'][1])
+            name = shared.setdefault(term, f'd{len(shared)}')
+            replies.append(f'(RpDesc {name})')
+        else:
+            replies.append(g_reply(s['reply']))
+    steps = '[' + ';\n   '.join('{| o_reply := %s; o_upds := %s |}' % (r, gal.lst(s['upds'], g_upd))
+                                for r, s in zip(replies, obs['steps'])) + ']'
+    lets = ''.join(f'let {name} : description := {term} in\n  ' for term, name in shared.items())
+    return '(%s{| c_env := %s; c_cfg := %s; c_ops := %s; c_obs := %s |})' % (lets, G.gal_pyenv(obs['env']), cfg, ops, steps)
 
 
 def model_result_term(case, obs):
@@ -706,7 +717,8 @@ def _cls_cfg_export(case, obs, failure):
     if failure['class'] == 'strict-json':
         # a command whose export is set to True in the configuration is listed under the python key True
         return any(m['export'] and a['kind'] == 'c' and a.get('cfg_export') is True for m in case['mods'] for a in m['accs'])
-    if failure['class'] not in ('undescribed-access', 'described-unreachable', 'undescribed-update', 'lists-exactly'):
+    if failure['class'] not in ('undescribed-access', 'described-unreachable', 'undescribed-update', 'lists-exactly',
+                                'emitted-importable', 'flags-predict', 'datainfo-same-verdict', 'constant-read'):
         return False
     m = _mod(case, failure.get('module'))
     if m is None:
@@ -1147,7 +1159,7 @@ def exhaustive_cases():
 
 def gen_cases(seed, tier):
     rng = random.Random(seed * 1000003 + 6)
-    n = {'quick': 2600, 'thorough': 40000, 'search': 40000}[tier]
+    n = {'quick': 2000, 'thorough': 40000, 'search': 40000}[tier]
     cases = list(exhaustive_cases())
     for i in range(n):
         cases.append(rand_case(rng, findings=(i % 4 == 0)))
